@@ -318,6 +318,7 @@ class Keys(Base):
             elif u == 3:
                 yield Msg("close_run", None, run=k)
             else:
+                yield Msg("null", None, f"lead{r}")  # something replayable before the unit's checkpoint
                 yield Msg("checkpoint")
                 yield Msg("trigger", det, group=f"t{r}")
                 yield Msg("wait", None, group=f"t{r}")
@@ -334,6 +335,182 @@ class Keys(Base):
                         yield Msg("open_run", None, run=open_keys[0], key="DUP")
                 yield from unit(r, nxt[r])
                 nxt[r] += 1
+
+        return plan()
+
+
+@register
+class ClearCp2(Base):
+    """After clear_checkpoint only IMPLICIT checkpoints follow (stage, subscribe, monitor, close_run of an inner run)."""
+
+    id = "clearcp2"
+
+    def devices(self, ctx):
+        return {"det": FakeDet(ctx, "det", is_async=self.a), "sig": FakeSignal(ctx, "sig")}
+
+    def plan(self, d):
+        import bluesky.plan_stubs as bps
+        import bluesky.preprocessors as bpp
+        from bluesky.utils import Msg
+
+        def body():
+            yield from bps.checkpoint()
+            yield Msg("null", None, 0)
+            yield from bps.clear_checkpoint()
+            yield Msg("null", None, 1)
+            yield from bps.stage(d["det"])
+            yield Msg("null", None, 2)
+            yield from bps.sleep(0.5)
+            tok = yield from bps.subscribe("all", lambda n, doc: None)
+            yield Msg("null", None, 3)
+            yield from bps.monitor(d["sig"], name="mon")
+            yield Msg("null", None, 4)
+            yield from bps.unmonitor(d["sig"])
+            yield from bps.unsubscribe(tok)
+            yield from bps.unstage(d["det"])
+            yield Msg("null", None, 5)
+            yield from bps.sleep(0.5)
+
+        def plan():
+            try:
+                yield from bpp.run_wrapper(body())
+            finally:
+                yield Msg("null", None, "CLEANUP")
+
+        return plan()
+
+
+@register
+class Watch(Base):
+    """wait(group=A, watch=[W]) while W's status is still in progress, then wait(W): W failing must surface by then."""
+
+    id = "watch"
+
+    def devices(self, ctx):
+        m1 = FakeMotor(ctx, "m1", is_async=self.a, move=("delay", 0.5))
+        m2 = FakeMotor(ctx, "m2", is_async=self.a, move=("delay", 2.0))
+        return {"m1": m1, "m2": m2, "det": FakeDet(ctx, "det", is_async=self.a, motors=[m1], stageable=False)}
+
+    def plan(self, d):
+        from bluesky.utils import Msg
+
+        def plan():
+            yield Msg("open_run")
+            yield Msg("checkpoint")
+            yield Msg("set", d["m2"], 5.0, group="W")  # slow, watched
+            yield Msg("set", d["m1"], 1.0, group="A")
+            yield Msg("wait", None, group="A", watch=["W"])
+            yield Msg("null", None, "between")
+            yield Msg("wait", None, group="W")
+            yield Msg("checkpoint")
+            yield Msg("trigger", d["det"], group="t")
+            yield Msg("wait", None, group="t")
+            yield Msg("create", None, name="primary")
+            yield Msg("read", d["det"])
+            yield Msg("save")
+            yield Msg("checkpoint")
+            yield Msg("null", None, "late")
+            yield Msg("close_run")
+
+        return plan()
+
+
+@register
+class Stubbed(Base):
+    """An inner plan run through stub_wrapper (open_run/close_run/stage/unstage dropped) inside an outer run; the
+    inner plan's own yields are logged: a dropped message must yield None, a forwarded one its own response."""
+
+    id = "stubbed"
+    log_yields = False
+
+    def devices(self, ctx):
+        m = FakeMotor(ctx, "m", is_async=self.a, move=("delay", 0.5))
+        return {"m": m, "det": FakeDet(ctx, "det", is_async=self.a, motors=[m], trigger=("delay", 0.25))}
+
+    def __init__(self, **params):
+        super().__init__(**params)
+        self.log_yields = False  # the logger sits around the INNER plan, not at the top level
+
+    def plan(self, d):
+        import bluesky.plan_stubs as bps
+        import bluesky.preprocessors as bpp
+        from bluesky.utils import Msg
+
+        def inner():
+            # every dropped message (stage, open_run, close_run, unstage) comes right after one with a response
+            yield Msg("checkpoint")
+            yield Msg("set", d["m"], 1.0, group="g")
+            yield Msg("open_run")
+            yield Msg("wait", None, group="g")
+            yield Msg("stage", d["det"])
+            yield Msg("trigger", d["det"], group="t")
+            yield Msg("unstage", d["det"])
+            yield Msg("wait", None, group="t")
+            yield Msg("create", None, name="primary")
+            yield Msg("read", d["det"])
+            yield Msg("close_run")
+            yield Msg("save")
+
+        def plan():
+            yield from bps.open_run()
+            yield from bpp.stub_wrapper(self.sess._logged(inner(), "propagate"))
+            yield from bps.close_run()
+
+        return plan()
+
+
+@register
+class MonitorPP(Base):
+    """A monitored run whose plan pauses itself twice (Msg('pause')): with one injected update every second pause is covered."""
+
+    id = "monitorpp"
+
+    def devices(self, ctx):
+        return {"sig": FakeSignal(ctx, "sig", initial=0), "det": FakeDet(ctx, "det", is_async=self.a, stageable=False)}
+
+    def plan(self, d):
+        import bluesky.plan_stubs as bps
+        from bluesky.utils import Msg
+
+        def plan():
+            yield from bps.open_run()
+            yield from bps.monitor(d["sig"], name="sig_monitor")
+            yield from bps.checkpoint()
+            d["sig"].put(10)
+            yield Msg("pause")
+            d["sig"].put(11)
+            yield from bps.trigger_and_read([d["det"]])
+            yield from bps.checkpoint()
+            yield Msg("pause")
+            d["sig"].put(12)
+            yield from bps.sleep(0.5)
+            yield from bps.unmonitor(d["sig"])
+            yield from bps.close_run()
+
+        return plan()
+
+
+@register
+class Bare2(Base):
+    """Two devices staged and never unstaged by the plan, run left open: all of it is the engine's to clean up."""
+
+    id = "bare2"
+
+    def devices(self, ctx):
+        m = FakeMotor(ctx, "m", is_async=self.a, move=("delay", 1.0), stageable=True)
+        return {"m": m, "det": FakeDet(ctx, "det", is_async=self.a, motors=[m]), "det2": FakeDet(ctx, "det2", is_async=self.a)}
+
+    def plan(self, d):
+        import bluesky.plan_stubs as bps
+
+        def plan():
+            yield from bps.stage(d["det"])
+            yield from bps.stage(d["m"])
+            yield from bps.stage(d["det2"])
+            yield from bps.open_run()
+            yield from bps.checkpoint()
+            yield from bps.mv(d["m"], 1)
+            yield from bps.trigger_and_read([d["det"], d["det2"]])
 
         return plan()
 
